@@ -270,6 +270,37 @@ func scTubeStream(r *Run) {
 			r.Violate("C08/accept-mismatch", "opened reliable tube %d, peer accepted tube %d reliable=%v", t.GetID(), peer.GetID(), peer.IsReliable())
 		}
 		pairs = append(pairs, pair{t, peer})
+		// a long-lived tube: the sequence space of both ends is moved close to (or across) the 32-bit wrap
+		// of the frame numbers, or to another large value, before any data flows
+		if r.Intn("seq", 5) == 0 {
+			var start uint32
+			switch r.Intn("seq", 4) {
+			case 0, 1:
+				start = uint32(1<<32 - uint64(1+r.Intn("seq", 3000)))
+			case 2:
+				start = uint32(1<<31 - uint64(r.Intn("seq", 3000)))
+			default:
+				start = uint32(2 + r.U64("seq")%(1<<32-10))
+			}
+			up := false
+			for w := 0; w < 400 && !up; w++ {
+				up = tubes.VerifState(t) == "initiated" && tubes.VerifState(peer) == "initiated"
+				if !up {
+					time.Sleep(time.Duration(50+10*w) * time.Millisecond)
+				}
+			}
+			if up && tubes.VerifShiftSeq(t, start) {
+				if tubes.VerifShiftSeq(peer, start) {
+					r.CountFault("sequence-space-shifted", 1)
+					r.Logf("tube %d: sequence space of both ends moved to %d", t.GetID(), start)
+				} else {
+					r.Violate("C08/nofault/harness", "sequence shift applied to one end only")
+					return
+				}
+			} else {
+				r.Probe("sequence-shift-skipped")
+			}
+		}
 	}
 
 	for i, p := range pairs {
